@@ -11,7 +11,7 @@ mkdir -p $out /tmp/h2out
 git -C $wt reset -q --hard; rm -f $wt/tests/demo_seed.rs
 git -C $wt apply $src/$x.patch.diff 2>/dev/null || git -C $wt apply -C1 $src/$x.patch.diff 2>/dev/null || git -C $wt apply --3way $src/$x.patch.diff 2>/dev/null || { echo "$id $x patch does not apply"; exit 2; }
 suite=$(cd $wt && cargo test --workspace --offline 2>&1 | grep -E "^test result" | tr '\n' ' ')
-suite_ok=$(echo "$suite" | grep -c "FAILED")
+suite_ok=$(echo "$suite" | grep -c "FAILED"); [ -z "$suite" ] && suite_ok=1 && suite="BUILD FAILED"
 cp $src/$x.demo.rs $wt/tests/demo_seed.rs
 demo_with=$(cd $wt && cargo test --offline --test demo_seed 2>&1 | grep -E "^test result" | tr '\n' ' ')
 rm -f $wt/tests/demo_seed.rs
